@@ -1,7 +1,8 @@
 /-
-  Which requests can make `command.Parse` panic: per parse function of `Cmd/Parse.lean`, and per row
-  of the generated dispatch table (`Generated.dispatch`). The row list below is static text: when
-  the Go source changes the table, this file stops compiling and has to be regenerated.
+  `command.Parse` never panics: per parse function of `Cmd/Parse.lean`, then per row of the
+  generated dispatch table (`Generated.dispatch`), then for `parse` itself.
+  Before the repair of D11 (`parser.StringsN` with a negative count) the four `numkeys` commands
+  could panic; the model has no panic source left, and this file proves it.
   Everything lives in `Redka.WireProofs`. Core Lean only.
 -/
 import RedkaModel.Proofs.WireTable
@@ -26,24 +27,20 @@ theorem withGrammar_panic (g : Grammar) (b : Base) (k : Env → ParseOut)
   · cases h
   · cases h
 
+/-- … and the pipeline never panics -/
 theorem withGrammar_noPanic (g : Grammar) (b : Base) (k : Env → ParseOut)
-    (hk : ∀ env, poIsPanic (k env) = false) (hg : NoStringsN g) :
+    (hk : ∀ env, poIsPanic (k env) = false) :
     poIsPanic (withGrammar g b k) = false := by
   cases h : poIsPanic (withGrammar g b k) with
   | false => rfl
-  | true =>
-    have := withGrammar_panic g b k hk h
-    have h2 := runGrammar_noPanic g b.args hg
-    rw [this] at h2
-    cases h2
+  | true => exact absurd (withGrammar_panic g b k hk h) (runGrammar_ne_panic g b.args)
 
 macro "po_k" : tactic =>
   `(tactic| (intro env; first | rfl | ((try dsimp only); (repeat' split) <;> rfl)))
 macro "po_nopanic" : tactic => `(tactic| first
   | rfl
   | (apply withGrammar_noPanic
-     · po_k
-     · decide)
+     po_k)
   | ((repeat' split) <;> rfl))
 
 /-! ### per parse function -/
@@ -279,13 +276,11 @@ theorem parseZCount_noPanic (b : Base) : poIsPanic (parseZCount b) = false := by
 theorem parseZIncrBy_noPanic (b : Base) : poIsPanic (parseZIncrBy b) = false := by
   unfold parseZIncrBy; po_nopanic
 
-theorem parseZInter_panic (b : Base) (h : poIsPanic (parseZInter b) = true) : NegLit b.args := by
-  unfold parseZInter at h
-  exact runGrammar_panic _ _ (withGrammar_panic _ _ _ (by po_k) h)
+theorem parseZInter_noPanic (b : Base) : poIsPanic (parseZInter b) = false := by
+  unfold parseZInter; po_nopanic
 
-theorem parseZInterStore_panic (b : Base) (h : poIsPanic (parseZInterStore b) = true) : NegLit b.args := by
-  unfold parseZInterStore at h
-  exact runGrammar_panic _ _ (withGrammar_panic _ _ _ (by po_k) h)
+theorem parseZInterStore_noPanic (b : Base) : poIsPanic (parseZInterStore b) = false := by
+  unfold parseZInterStore; po_nopanic
 
 theorem parseZRange_noPanic (b : Base) : poIsPanic (parseZRange b) = false := by
   unfold parseZRange; po_nopanic
@@ -320,324 +315,314 @@ theorem parseZScan_noPanic (b : Base) : poIsPanic (parseZScan b) = false := by
 theorem parseZScore_noPanic (b : Base) : poIsPanic (parseZScore b) = false := by
   unfold parseZScore; po_nopanic
 
-theorem parseZUnion_panic (b : Base) (h : poIsPanic (parseZUnion b) = true) : NegLit b.args := by
-  unfold parseZUnion at h
-  exact runGrammar_panic _ _ (withGrammar_panic _ _ _ (by po_k) h)
+theorem parseZUnion_noPanic (b : Base) : poIsPanic (parseZUnion b) = false := by
+  unfold parseZUnion; po_nopanic
 
-theorem parseZUnionStore_panic (b : Base) (h : poIsPanic (parseZUnionStore b) = true) : NegLit b.args := by
-  unfold parseZUnionStore at h
-  exact runGrammar_panic _ _ (withGrammar_panic _ _ _ (by po_k) h)
+theorem parseZUnionStore_noPanic (b : Base) : poIsPanic (parseZUnionStore b) = false := by
+  unfold parseZUnionStore; po_nopanic
 
-/-! ### per row of the dispatch table -/
+/-! ### per row of the dispatch table
 
-/-- the lower-cased names of the commands whose parser contains `parser.StringsN` -/
-def numkeysCommands : List String := ["zinter", "zinterstore", "zunion", "zunionstore"]
+The row list below is static text: when the Go source changes the table, this file stops compiling
+and has to be regenerated. -/
 
-/-- what is known about one row: no panic at all, or (the four) only with a negative literal -/
+/-- what is known about one row: its parse function never panics -/
 def RowOK (r : String × String × List Int) : Prop :=
-  ∀ b : Base, poIsPanic (parseBy r.2.1 r.2.2 b) = true → r.1 ∈ numkeysCommands ∧ NegLit b.args
-
-theorem rowOK_of_noPanic (r : String × String × List Int)
-    (h : ∀ b : Base, poIsPanic (parseBy r.2.1 r.2.2 b) = false) : RowOK r := by
-  intro b hb; rw [h b] at hb; cases hb
+  ∀ b : Base, poIsPanic (parseBy r.2.1 r.2.2 b) = false
 
 theorem row_command : RowOK ("command", "server.ParseOK", []) :=
-  rowOK_of_noPanic _ (fun b => parseOK_noPanic b)
+  fun b => parseOK_noPanic b
 
 theorem row_config : RowOK ("config", "server.ParseConfig", []) :=
-  rowOK_of_noPanic _ (fun b => parseConfig_noPanic b)
+  fun b => parseConfig_noPanic b
 
 theorem row_dbsize : RowOK ("dbsize", "server.ParseDBSize", []) :=
-  rowOK_of_noPanic _ (fun b => parseDBSize_noPanic b)
+  fun b => parseDBSize_noPanic b
 
 theorem row_flushdb : RowOK ("flushdb", "key.ParseFlushDB", []) :=
-  rowOK_of_noPanic _ (fun b => parseFlushDB_noPanic b)
+  fun b => parseFlushDB_noPanic b
 
 theorem row_flushall : RowOK ("flushall", "key.ParseFlushDB", []) :=
-  rowOK_of_noPanic _ (fun b => parseFlushDB_noPanic b)
+  fun b => parseFlushDB_noPanic b
 
 theorem row_info : RowOK ("info", "server.ParseOK", []) :=
-  rowOK_of_noPanic _ (fun b => parseOK_noPanic b)
+  fun b => parseOK_noPanic b
 
 theorem row_lolwut : RowOK ("lolwut", "server.ParseLolwut", []) :=
-  rowOK_of_noPanic _ (fun b => parseLolwut_noPanic b)
+  fun b => parseLolwut_noPanic b
 
 theorem row_echo : RowOK ("echo", "conn.ParseEcho", []) :=
-  rowOK_of_noPanic _ (fun b => parseEcho_noPanic b)
+  fun b => parseEcho_noPanic b
 
 theorem row_ping : RowOK ("ping", "conn.ParsePing", []) :=
-  rowOK_of_noPanic _ (fun b => parsePing_noPanic b)
+  fun b => parsePing_noPanic b
 
 theorem row_select : RowOK ("select", "conn.ParseSelect", []) :=
-  rowOK_of_noPanic _ (fun b => parseSelect_noPanic b)
+  fun b => parseSelect_noPanic b
 
 theorem row_del : RowOK ("del", "key.ParseDel", []) :=
-  rowOK_of_noPanic _ (fun b => parseDel_noPanic b)
+  fun b => parseDel_noPanic b
 
 theorem row_exists : RowOK ("exists", "key.ParseExists", []) :=
-  rowOK_of_noPanic _ (fun b => parseExists_noPanic b)
+  fun b => parseExists_noPanic b
 
 theorem row_expire : RowOK ("expire", "key.ParseExpire", [1000]) :=
-  rowOK_of_noPanic _ (fun b => parseExpire_noPanic b 1000)
+  fun b => parseExpire_noPanic b 1000
 
 theorem row_expireat : RowOK ("expireat", "key.ParseExpireAt", [1000]) :=
-  rowOK_of_noPanic _ (fun b => parseExpireAt_noPanic b 1000)
+  fun b => parseExpireAt_noPanic b 1000
 
 theorem row_keys : RowOK ("keys", "key.ParseKeys", []) :=
-  rowOK_of_noPanic _ (fun b => parseKeys_noPanic b)
+  fun b => parseKeys_noPanic b
 
 theorem row_persist : RowOK ("persist", "key.ParsePersist", []) :=
-  rowOK_of_noPanic _ (fun b => parsePersist_noPanic b)
+  fun b => parsePersist_noPanic b
 
 theorem row_pexpire : RowOK ("pexpire", "key.ParseExpire", [1]) :=
-  rowOK_of_noPanic _ (fun b => parseExpire_noPanic b 1)
+  fun b => parseExpire_noPanic b 1
 
 theorem row_pexpireat : RowOK ("pexpireat", "key.ParseExpireAt", [1]) :=
-  rowOK_of_noPanic _ (fun b => parseExpireAt_noPanic b 1)
+  fun b => parseExpireAt_noPanic b 1
 
 theorem row_randomkey : RowOK ("randomkey", "key.ParseRandomKey", []) :=
-  rowOK_of_noPanic _ (fun b => parseRandomKey_noPanic b)
+  fun b => parseRandomKey_noPanic b
 
 theorem row_rename : RowOK ("rename", "key.ParseRename", []) :=
-  rowOK_of_noPanic _ (fun b => parseRename_noPanic b)
+  fun b => parseRename_noPanic b
 
 theorem row_renamenx : RowOK ("renamenx", "key.ParseRenameNX", []) :=
-  rowOK_of_noPanic _ (fun b => parseRenameNX_noPanic b)
+  fun b => parseRenameNX_noPanic b
 
 theorem row_scan : RowOK ("scan", "key.ParseScan", []) :=
-  rowOK_of_noPanic _ (fun b => parseScan_noPanic b)
+  fun b => parseScan_noPanic b
 
 theorem row_ttl : RowOK ("ttl", "key.ParseTTL", []) :=
-  rowOK_of_noPanic _ (fun b => parseTTL_noPanic b)
+  fun b => parseTTL_noPanic b
 
 theorem row_type : RowOK ("type", "key.ParseType", []) :=
-  rowOK_of_noPanic _ (fun b => parseType_noPanic b)
+  fun b => parseType_noPanic b
 
 theorem row_lindex : RowOK ("lindex", "list.ParseLIndex", []) :=
-  rowOK_of_noPanic _ (fun b => parseLIndex_noPanic b)
+  fun b => parseLIndex_noPanic b
 
 theorem row_linsert : RowOK ("linsert", "list.ParseLInsert", []) :=
-  rowOK_of_noPanic _ (fun b => parseLInsert_noPanic b)
+  fun b => parseLInsert_noPanic b
 
 theorem row_llen : RowOK ("llen", "list.ParseLLen", []) :=
-  rowOK_of_noPanic _ (fun b => parseLLen_noPanic b)
+  fun b => parseLLen_noPanic b
 
 theorem row_lpop : RowOK ("lpop", "list.ParseLPop", []) :=
-  rowOK_of_noPanic _ (fun b => parseLPop_noPanic b)
+  fun b => parseLPop_noPanic b
 
 theorem row_lpush : RowOK ("lpush", "list.ParseLPush", []) :=
-  rowOK_of_noPanic _ (fun b => parseLPush_noPanic b)
+  fun b => parseLPush_noPanic b
 
 theorem row_lrange : RowOK ("lrange", "list.ParseLRange", []) :=
-  rowOK_of_noPanic _ (fun b => parseLRange_noPanic b)
+  fun b => parseLRange_noPanic b
 
 theorem row_lrem : RowOK ("lrem", "list.ParseLRem", []) :=
-  rowOK_of_noPanic _ (fun b => parseLRem_noPanic b)
+  fun b => parseLRem_noPanic b
 
 theorem row_lset : RowOK ("lset", "list.ParseLSet", []) :=
-  rowOK_of_noPanic _ (fun b => parseLSet_noPanic b)
+  fun b => parseLSet_noPanic b
 
 theorem row_ltrim : RowOK ("ltrim", "list.ParseLTrim", []) :=
-  rowOK_of_noPanic _ (fun b => parseLTrim_noPanic b)
+  fun b => parseLTrim_noPanic b
 
 theorem row_rpop : RowOK ("rpop", "list.ParseRPop", []) :=
-  rowOK_of_noPanic _ (fun b => parseRPop_noPanic b)
+  fun b => parseRPop_noPanic b
 
 theorem row_rpoplpush : RowOK ("rpoplpush", "list.ParseRPopLPush", []) :=
-  rowOK_of_noPanic _ (fun b => parseRPopLPush_noPanic b)
+  fun b => parseRPopLPush_noPanic b
 
 theorem row_rpush : RowOK ("rpush", "list.ParseRPush", []) :=
-  rowOK_of_noPanic _ (fun b => parseRPush_noPanic b)
+  fun b => parseRPush_noPanic b
 
 theorem row_decr : RowOK ("decr", "string.ParseIncr", [(-1)]) :=
-  rowOK_of_noPanic _ (fun b => parseIncr_noPanic b (-1))
+  fun b => parseIncr_noPanic b (-1)
 
 theorem row_decrby : RowOK ("decrby", "string.ParseIncrBy", [(-1)]) :=
-  rowOK_of_noPanic _ (fun b => parseIncrBy_noPanic b (-1))
+  fun b => parseIncrBy_noPanic b (-1)
 
 theorem row_get : RowOK ("get", "string.ParseGet", []) :=
-  rowOK_of_noPanic _ (fun b => parseGet_noPanic b)
+  fun b => parseGet_noPanic b
 
 theorem row_getset : RowOK ("getset", "string.ParseGetSet", []) :=
-  rowOK_of_noPanic _ (fun b => parseGetSet_noPanic b)
+  fun b => parseGetSet_noPanic b
 
 theorem row_incr : RowOK ("incr", "string.ParseIncr", [1]) :=
-  rowOK_of_noPanic _ (fun b => parseIncr_noPanic b 1)
+  fun b => parseIncr_noPanic b 1
 
 theorem row_incrby : RowOK ("incrby", "string.ParseIncrBy", [1]) :=
-  rowOK_of_noPanic _ (fun b => parseIncrBy_noPanic b 1)
+  fun b => parseIncrBy_noPanic b 1
 
 theorem row_incrbyfloat : RowOK ("incrbyfloat", "string.ParseIncrByFloat", []) :=
-  rowOK_of_noPanic _ (fun b => parseIncrByFloat_noPanic b)
+  fun b => parseIncrByFloat_noPanic b
 
 theorem row_mget : RowOK ("mget", "string.ParseMGet", []) :=
-  rowOK_of_noPanic _ (fun b => parseMGet_noPanic b)
+  fun b => parseMGet_noPanic b
 
 theorem row_mset : RowOK ("mset", "string.ParseMSet", []) :=
-  rowOK_of_noPanic _ (fun b => parseMSet_noPanic b)
+  fun b => parseMSet_noPanic b
 
 theorem row_psetex : RowOK ("psetex", "string.ParseSetEX", [1]) :=
-  rowOK_of_noPanic _ (fun b => parseSetEX_noPanic b 1)
+  fun b => parseSetEX_noPanic b 1
 
 theorem row_set : RowOK ("set", "string.ParseSet", []) :=
-  rowOK_of_noPanic _ (fun b => parseSet_noPanic b)
+  fun b => parseSet_noPanic b
 
 theorem row_setex : RowOK ("setex", "string.ParseSetEX", [1000]) :=
-  rowOK_of_noPanic _ (fun b => parseSetEX_noPanic b 1000)
+  fun b => parseSetEX_noPanic b 1000
 
 theorem row_setnx : RowOK ("setnx", "string.ParseSetNX", []) :=
-  rowOK_of_noPanic _ (fun b => parseSetNX_noPanic b)
+  fun b => parseSetNX_noPanic b
 
 theorem row_strlen : RowOK ("strlen", "string.ParseStrlen", []) :=
-  rowOK_of_noPanic _ (fun b => parseStrlen_noPanic b)
+  fun b => parseStrlen_noPanic b
 
 theorem row_hdel : RowOK ("hdel", "hash.ParseHDel", []) :=
-  rowOK_of_noPanic _ (fun b => parseHDel_noPanic b)
+  fun b => parseHDel_noPanic b
 
 theorem row_hexists : RowOK ("hexists", "hash.ParseHExists", []) :=
-  rowOK_of_noPanic _ (fun b => parseHExists_noPanic b)
+  fun b => parseHExists_noPanic b
 
 theorem row_hget : RowOK ("hget", "hash.ParseHGet", []) :=
-  rowOK_of_noPanic _ (fun b => parseHGet_noPanic b)
+  fun b => parseHGet_noPanic b
 
 theorem row_hgetall : RowOK ("hgetall", "hash.ParseHGetAll", []) :=
-  rowOK_of_noPanic _ (fun b => parseHGetAll_noPanic b)
+  fun b => parseHGetAll_noPanic b
 
 theorem row_hincrby : RowOK ("hincrby", "hash.ParseHIncrBy", []) :=
-  rowOK_of_noPanic _ (fun b => parseHIncrBy_noPanic b)
+  fun b => parseHIncrBy_noPanic b
 
 theorem row_hincrbyfloat : RowOK ("hincrbyfloat", "hash.ParseHIncrByFloat", []) :=
-  rowOK_of_noPanic _ (fun b => parseHIncrByFloat_noPanic b)
+  fun b => parseHIncrByFloat_noPanic b
 
 theorem row_hkeys : RowOK ("hkeys", "hash.ParseHKeys", []) :=
-  rowOK_of_noPanic _ (fun b => parseHKeys_noPanic b)
+  fun b => parseHKeys_noPanic b
 
 theorem row_hlen : RowOK ("hlen", "hash.ParseHLen", []) :=
-  rowOK_of_noPanic _ (fun b => parseHLen_noPanic b)
+  fun b => parseHLen_noPanic b
 
 theorem row_hmget : RowOK ("hmget", "hash.ParseHMGet", []) :=
-  rowOK_of_noPanic _ (fun b => parseHMGet_noPanic b)
+  fun b => parseHMGet_noPanic b
 
 theorem row_hmset : RowOK ("hmset", "hash.ParseHMSet", []) :=
-  rowOK_of_noPanic _ (fun b => parseHMSet_noPanic b)
+  fun b => parseHMSet_noPanic b
 
 theorem row_hscan : RowOK ("hscan", "hash.ParseHScan", []) :=
-  rowOK_of_noPanic _ (fun b => parseHScan_noPanic b)
+  fun b => parseHScan_noPanic b
 
 theorem row_hset : RowOK ("hset", "hash.ParseHSet", []) :=
-  rowOK_of_noPanic _ (fun b => parseHSet_noPanic b)
+  fun b => parseHSet_noPanic b
 
 theorem row_hsetnx : RowOK ("hsetnx", "hash.ParseHSetNX", []) :=
-  rowOK_of_noPanic _ (fun b => parseHSetNX_noPanic b)
+  fun b => parseHSetNX_noPanic b
 
 theorem row_hvals : RowOK ("hvals", "hash.ParseHVals", []) :=
-  rowOK_of_noPanic _ (fun b => parseHVals_noPanic b)
+  fun b => parseHVals_noPanic b
 
 theorem row_sadd : RowOK ("sadd", "set.ParseSAdd", []) :=
-  rowOK_of_noPanic _ (fun b => parseSAdd_noPanic b)
+  fun b => parseSAdd_noPanic b
 
 theorem row_scard : RowOK ("scard", "set.ParseSCard", []) :=
-  rowOK_of_noPanic _ (fun b => parseSCard_noPanic b)
+  fun b => parseSCard_noPanic b
 
 theorem row_sdiff : RowOK ("sdiff", "set.ParseSDiff", []) :=
-  rowOK_of_noPanic _ (fun b => parseSDiff_noPanic b)
+  fun b => parseSDiff_noPanic b
 
 theorem row_sdiffstore : RowOK ("sdiffstore", "set.ParseSDiffStore", []) :=
-  rowOK_of_noPanic _ (fun b => parseSDiffStore_noPanic b)
+  fun b => parseSDiffStore_noPanic b
 
 theorem row_sinter : RowOK ("sinter", "set.ParseSInter", []) :=
-  rowOK_of_noPanic _ (fun b => parseSInter_noPanic b)
+  fun b => parseSInter_noPanic b
 
 theorem row_sinterstore : RowOK ("sinterstore", "set.ParseSInterStore", []) :=
-  rowOK_of_noPanic _ (fun b => parseSInterStore_noPanic b)
+  fun b => parseSInterStore_noPanic b
 
 theorem row_sismember : RowOK ("sismember", "set.ParseSIsMember", []) :=
-  rowOK_of_noPanic _ (fun b => parseSIsMember_noPanic b)
+  fun b => parseSIsMember_noPanic b
 
 theorem row_smembers : RowOK ("smembers", "set.ParseSMembers", []) :=
-  rowOK_of_noPanic _ (fun b => parseSMembers_noPanic b)
+  fun b => parseSMembers_noPanic b
 
 theorem row_smove : RowOK ("smove", "set.ParseSMove", []) :=
-  rowOK_of_noPanic _ (fun b => parseSMove_noPanic b)
+  fun b => parseSMove_noPanic b
 
 theorem row_spop : RowOK ("spop", "set.ParseSPop", []) :=
-  rowOK_of_noPanic _ (fun b => parseSPop_noPanic b)
+  fun b => parseSPop_noPanic b
 
 theorem row_srandmember : RowOK ("srandmember", "set.ParseSRandMember", []) :=
-  rowOK_of_noPanic _ (fun b => parseSRandMember_noPanic b)
+  fun b => parseSRandMember_noPanic b
 
 theorem row_srem : RowOK ("srem", "set.ParseSRem", []) :=
-  rowOK_of_noPanic _ (fun b => parseSRem_noPanic b)
+  fun b => parseSRem_noPanic b
 
 theorem row_sscan : RowOK ("sscan", "set.ParseSScan", []) :=
-  rowOK_of_noPanic _ (fun b => parseSScan_noPanic b)
+  fun b => parseSScan_noPanic b
 
 theorem row_sunion : RowOK ("sunion", "set.ParseSUnion", []) :=
-  rowOK_of_noPanic _ (fun b => parseSUnion_noPanic b)
+  fun b => parseSUnion_noPanic b
 
 theorem row_sunionstore : RowOK ("sunionstore", "set.ParseSUnionStore", []) :=
-  rowOK_of_noPanic _ (fun b => parseSUnionStore_noPanic b)
+  fun b => parseSUnionStore_noPanic b
 
 theorem row_zadd : RowOK ("zadd", "zset.ParseZAdd", []) :=
-  rowOK_of_noPanic _ (fun b => parseZAdd_noPanic b)
+  fun b => parseZAdd_noPanic b
 
 theorem row_zcard : RowOK ("zcard", "zset.ParseZCard", []) :=
-  rowOK_of_noPanic _ (fun b => parseZCard_noPanic b)
+  fun b => parseZCard_noPanic b
 
 theorem row_zcount : RowOK ("zcount", "zset.ParseZCount", []) :=
-  rowOK_of_noPanic _ (fun b => parseZCount_noPanic b)
+  fun b => parseZCount_noPanic b
 
 theorem row_zincrby : RowOK ("zincrby", "zset.ParseZIncrBy", []) :=
-  rowOK_of_noPanic _ (fun b => parseZIncrBy_noPanic b)
+  fun b => parseZIncrBy_noPanic b
 
-theorem row_zinter : RowOK ("zinter", "zset.ParseZInter", []) := by
-  intro b hb
-  exact ⟨by decide, parseZInter_panic b hb⟩
+theorem row_zinter : RowOK ("zinter", "zset.ParseZInter", []) :=
+  fun b => parseZInter_noPanic b
 
-theorem row_zinterstore : RowOK ("zinterstore", "zset.ParseZInterStore", []) := by
-  intro b hb
-  exact ⟨by decide, parseZInterStore_panic b hb⟩
+theorem row_zinterstore : RowOK ("zinterstore", "zset.ParseZInterStore", []) :=
+  fun b => parseZInterStore_noPanic b
 
 theorem row_zrange : RowOK ("zrange", "zset.ParseZRange", []) :=
-  rowOK_of_noPanic _ (fun b => parseZRange_noPanic b)
+  fun b => parseZRange_noPanic b
 
 theorem row_zrangebyscore : RowOK ("zrangebyscore", "zset.ParseZRangeByScore", []) :=
-  rowOK_of_noPanic _ (fun b => parseZRangeByScore_noPanic b)
+  fun b => parseZRangeByScore_noPanic b
 
 theorem row_zrank : RowOK ("zrank", "zset.ParseZRank", []) :=
-  rowOK_of_noPanic _ (fun b => parseZRank_noPanic b)
+  fun b => parseZRank_noPanic b
 
 theorem row_zrem : RowOK ("zrem", "zset.ParseZRem", []) :=
-  rowOK_of_noPanic _ (fun b => parseZRem_noPanic b)
+  fun b => parseZRem_noPanic b
 
 theorem row_zremrangebyrank : RowOK ("zremrangebyrank", "zset.ParseZRemRangeByRank", []) :=
-  rowOK_of_noPanic _ (fun b => parseZRemRangeByRank_noPanic b)
+  fun b => parseZRemRangeByRank_noPanic b
 
 theorem row_zremrangebyscore : RowOK ("zremrangebyscore", "zset.ParseZRemRangeByScore", []) :=
-  rowOK_of_noPanic _ (fun b => parseZRemRangeByScore_noPanic b)
+  fun b => parseZRemRangeByScore_noPanic b
 
 theorem row_zrevrange : RowOK ("zrevrange", "zset.ParseZRevRange", []) :=
-  rowOK_of_noPanic _ (fun b => parseZRevRange_noPanic b)
+  fun b => parseZRevRange_noPanic b
 
 theorem row_zrevrangebyscore : RowOK ("zrevrangebyscore", "zset.ParseZRevRangeByScore", []) :=
-  rowOK_of_noPanic _ (fun b => parseZRevRangeByScore_noPanic b)
+  fun b => parseZRevRangeByScore_noPanic b
 
 theorem row_zrevrank : RowOK ("zrevrank", "zset.ParseZRevRank", []) :=
-  rowOK_of_noPanic _ (fun b => parseZRevRank_noPanic b)
+  fun b => parseZRevRank_noPanic b
 
 theorem row_zscan : RowOK ("zscan", "zset.ParseZScan", []) :=
-  rowOK_of_noPanic _ (fun b => parseZScan_noPanic b)
+  fun b => parseZScan_noPanic b
 
 theorem row_zscore : RowOK ("zscore", "zset.ParseZScore", []) :=
-  rowOK_of_noPanic _ (fun b => parseZScore_noPanic b)
+  fun b => parseZScore_noPanic b
 
-theorem row_zunion : RowOK ("zunion", "zset.ParseZUnion", []) := by
-  intro b hb
-  exact ⟨by decide, parseZUnion_panic b hb⟩
+theorem row_zunion : RowOK ("zunion", "zset.ParseZUnion", []) :=
+  fun b => parseZUnion_noPanic b
 
-theorem row_zunionstore : RowOK ("zunionstore", "zset.ParseZUnionStore", []) := by
-  intro b hb
-  exact ⟨by decide, parseZUnionStore_panic b hb⟩
+theorem row_zunionstore : RowOK ("zunionstore", "zset.ParseZUnionStore", []) :=
+  fun b => parseZUnionStore_noPanic b
 
 /-- the certificate list, in table order -/
 theorem dispatch_rows_ok : ∀ r ∈ Generated.dispatch, RowOK r := by
@@ -748,34 +733,30 @@ theorem default_row_noPanic (b : Base) : poIsPanic (parseBy Generated.dispatchDe
 
 /-! ### `command.Parse` -/
 
-/-- **Which requests can crash the parser (D11).** `command.Parse` panics only on one of the four
-commands that take a `numkeys` argument, and only when some argument is a negative integer. -/
-theorem parse_panic (req : List Bytes) (h : poIsPanic (parse req) = true) :
-    ∃ a0 rest name, req = a0 :: rest ∧ lowerName a0 = some name ∧
-      name ∈ numkeysCommands.map asciiBytes ∧ NegLit rest := by
-  unfold parse at h
-  split at h
-  · cases h
+/-- **No request makes the parser panic** (D11 repaired: before, the four `numkeys` commands did on
+a negative count). -/
+theorem parse_noPanic (req : List Bytes) : poIsPanic (parse req) = false := by
+  unfold parse
+  split
+  · rfl
   · next a0 rest =>
-    split at h
-    · cases h
+    split
+    · rfl
     · next name hname =>
-      dsimp only at h
-      unfold lookupDispatch at h
+      dsimp only
+      unfold lookupDispatch
       cases hf : Generated.dispatch.find? (fun r => asciiBytes r.1 == name) with
       | none =>
-        rw [hf] at h
-        simp only [Option.map_none] at h
-        rw [default_row_noPanic] at h
-        cases h
+        simp only [Option.map_none]
+        exact default_row_noPanic _
       | some r =>
-        rw [hf] at h
-        simp only [Option.map_some] at h
-        have hr := dispatch_rows_ok r (List.mem_of_find?_eq_some hf) _ h
-        have hn : (asciiBytes r.1 == name) = true :=
-          List.find?_some (p := fun r : String × String × List Int => asciiBytes r.1 == name) hf
-        refine ⟨a0, rest, name, rfl, hname, ?_, hr.2⟩
-        rw [← (beq_iff_eq.mp hn)]
-        exact List.mem_map_of_mem hr.1
+        simp only [Option.map_some]
+        exact dispatch_rows_ok r (List.mem_of_find?_eq_some hf) _
+
+theorem parse_ne_panic (req : List Bytes) : parse req ≠ .panic := by
+  intro e
+  have := parse_noPanic req
+  rw [e] at this
+  cases this
 
 end Redka.WireProofs
